@@ -27,6 +27,7 @@ P = {
     'C12': ('model_checking', 'from array (all lengths 0..2N+1), from_iter, new/default/boxed: contents, destroyed prefix, ids', '7'),
     'C13': ('model_checking', 'spec/Observers.tla: TLC proves for every pair of physical states (capacities 0..3 x 0..3 quick / 0..4 thorough, every front position, length and two-letter contents on both sides) that the segment-wise PartialEq alignment, PartialEq<[U]>, iteration order and hash feed equal the functions of the two abstract sequences; every pair is replayed on the real type (==, !=, <, <=, >, >=, partial_cmp, cmp, hash, six slice/array/reference forms, Debug under eleven formatter flag sets) and each result validated against the contract', '7'),
     'C14': ('model_checking', 'write/read/fill_buf/consume/flush from every layout with every length (write 0..2N+1, destination 0..N+2, consume 0..N+2 and usize::MAX) enumerated by TLC on the I/O family of L1, replayed on CircularBuffer<N,u8> with garbage in unoccupied bytes, plus seeded random interleavings at larger capacities; each call validated against the byte-stream clauses of the contract', '7'),
+    'C15': ('other', 'spec/Borrow.tla is a machine over client programs (create view / use view / &self call / &mut self call / move) with the crate borrow contract as its guard; TLC enumerates all programs up to 4 (thorough: 5) statements, checks the aliasing-XOR-mutation theorem on them and classifies them; every legal program must compile and every single-conflict program must be rejected by the borrow checker when instantiated with the concrete methods (accept / reject witness crates built against the current tree); variance, const-ness, Iter: Clone and the Send/Sync table are rows of a static contract table with one accept or reject witness each. rustc is the oracle; the specification supplies the enumeration. This is partly outside the family: static type facts have no transition content', '7'),
     'C16': ('model_checking', 'the C14 scenario set replayed through embedded_io and embedded_io_async trait methods (and std::io in the same build) in three builds (embedded-io, embedded-io-async, both); one contract for all families => same counts, bytes, contents; futures polled once must be Ready; a build failure of a configuration is a violation', '7'),
     'C17': ('model_checking', 'allocation counter of a counting global allocator sampled around every recorded call; contract clause allocs = 0 except boxed/to_vec', '7'),
     'C18': ('model_checking', 'the complete scenario sets of the other checks (all behaviours without fault, all with an injected fault, the observer pairs) are replayed in a nightly build with --features unstable: every trace must be accepted by the same contract and the digest of the property-level projection (results, contents, panics, element lifecycle callbacks) of every scenario must equal that of the default build', '7'),
@@ -39,6 +40,7 @@ def main():
     checks = []
     for pid in sorted(P):
         lvl, text, ref = P[pid]
+        tech = TECH if pid != 'C15' else 'explicit TLA+ client-program model (spec/Borrow.tla) enumerated and classified by TLC; generated accept/reject witness crates compiled against the crate, rustc as oracle'
         checks.append({
             'property_id': pid,
             'quick_cmd': 'bin/verif check %s --tier quick' % pid,
@@ -48,7 +50,7 @@ def main():
             'engine': 'tla-conformance',
             'level_claimed': {'category': lvl, 'text': text, 'design_ref': 'DESIGN.md section ' + ref},
             'level_note': NOTE,
-            'technique': TECH,
+            'technique': tech,
         })
     props = [json.loads(l)['id'] for l in open(os.path.join(VERIF, 'properties.jsonl'))]
     na = [{'property_id': p, 'reason': 'check not built yet (work in progress; DESIGN.md section 13 gives the plan for it)'}
